@@ -19,7 +19,7 @@ RULE = ("mode extraction: for each ordered pair of methods the first call is par
 def wide(ctx, tla, quick):
     """Wide rounds (too wide for the linearisation search) judged by necessary conditions of the statement."""
     wf = os.path.join(ctx.scratch, "c08.wide.ndjson")
-    p, crash = ctx.drv_crashable(["c08", "wide", "--rounds", 6 if quick else 200, "--out", wf], timeout=3000)
+    p, crash = ctx.drv_crashable(["c08", "wide", "--rounds", 6 if quick else 200, "--fresh", 1500 if quick else 30000, "--out", wf], timeout=3000)
     if crash:
         ctx.report("wide rounds: process crash: %s in %s" % (crash["panic"], crash["frame"].split("(")[0]), "the driver died: %s" % crash["stderr"][-1500:], {"component": "c08-wide", "crash": crash})
         return
